@@ -305,6 +305,8 @@ func run(c *hc.Ctx) error {
 			}
 			obj := w.newObj[ct.Idx]()
 			g.fillCtor(ct, reflect.ValueOf(obj).Elem(), 0)
+			var pre strings.Builder
+			w.showPre(&pre, ct, reflect.ValueOf(obj).Elem()) // as built: no SetFlags has run yet
 			setFlagsDeep(reflect.ValueOf(obj))
 			data, eerr, p := encodeSafe(obj)
 			name := ct.Pkg + "." + ct.GoName
@@ -348,6 +350,11 @@ func run(c *hc.Ctx) error {
 				continue
 			}
 			q = append(q, pending{in, name + " " + in, "ok " + sx + " 0 same"})
+			// SetFlags + Encode of the model on the value as built must give the same bytes
+			if len(pre.String()) < 1<<20 {
+				el := fmt.Sprintf("enc C%d %s", ct.Idx, pre.String())
+				q = append(q, pending{el, name + " " + el, hc.Hex(data)})
+			}
 		}
 		// --- arbitrary / mutated bytes
 		var base []byte
